@@ -997,7 +997,16 @@ impl NodeDeletionEntry {
         //a deletion record only covers the version it was signed for and the older ones
         let query = "DELETE FROM _node WHERE room_id=? AND id=? AND mdate <= ?";
         let mut stmt = conn.prepare_cached(query)?;
+        //the version stored locally can be older than the deleted one: its day must be recomputed too
+        let mut stored_stmt = conn
+            .prepare_cached("SELECT mdate FROM _node WHERE room_id=? AND id=? AND mdate <= ?")?;
         for node in nodes {
+            let stored_date: Option<i64> = stored_stmt
+                .query_row((node.room_id, node.id, node.mdate), |row| row.get(0))
+                .optional()?;
+            if let Some(stored_date) = stored_date {
+                daily_log.set_need_update(node.room_id, &node.entity, stored_date);
+            }
             stmt.execute((node.room_id, node.id, node.mdate))?;
             node.write(conn)?;
             daily_log.set_need_update(node.room_id, &node.entity, node.deletion_date);
